@@ -567,7 +567,7 @@ Proof. exact SearchLegal4.q4_facts. Qed.
 Print Assumptions C04_example_position.
 
 (* ================= (9) third wave: AnalyzeAll, the randomised GetMove and whole-PV replay over the EXECUTED model Search.v =================
-   SearchAll3.analyze_all_cancel basis cfg k = Search.analyze_all_gen false basis cfg k: MinimaxAI.AnalyzeAll (repaired code), context
+   Search.analyze_all_cancel basis cfg k = Search.analyze_all_gen false basis cfg k: MinimaxAI.AnalyzeAll (repaired code), context
      cancelled inside the k-th leaf evaluation (k = 0: never; Search.analyze_all, which ./check C05 executes against the code).
    SearchAllLegal2.seed_depth s p = the depth of the exact root entry Analyze would start from (0 without one): AnalyzeAll / GetMove
      search the children to that depth minus one when no iteration runs, so C18's ply limit is asked up to it.
@@ -577,7 +577,7 @@ Theorem C04_analyze_all_heads_legal_executed : forall cfg, SearchNeg5.builtin_ev
   SearchLegal2.SJ s -> SearchNeg2.base_ok p -> Search.is_over p = false -> (Preserve1.total p <= 64)%N ->
   (move p + Z.max 1 (Z.max (Search.c_depth cfg) (SearchAllLegal2.seed_depth s p)) <= EvalSpec.max_terminal_ply)%Z ->
   SearchLegal3.seed_legal s p ->
-  SearchAll3.analyze_all_cancel Generated.Consts.gen_basis cfg k s p = (sk, (pvs, v, d, c)) ->
+  Search.analyze_all_cancel Generated.Consts.gen_basis cfg k s p = (sk, (pvs, v, d, c)) ->
   SearchLegal2.SJ sk /\ Forall (SearchLegal3.head_legal p) pvs /\ Forall (fun l => l <> []) pvs.
 Proof. exact SearchAllLegal2.analyze_all_heads_legal_64. Qed.
 Print Assumptions C04_analyze_all_heads_legal_executed.
@@ -587,7 +587,7 @@ Theorem C04_analyze_all_heads_legal_game64 : forall cfg, SearchNeg5.builtin_eval
   Reach1.replay (Alloc.new_pos sz bwt stones caps) ms = Ok p -> Search.is_over p = false ->
   forall k s sk pvs v d c, SearchLegal2.SJ s -> SearchLegal3.seed_legal s p ->
   (Z.of_nat (length ms) + Z.max 1 (Z.max (Search.c_depth cfg) (SearchAllLegal2.seed_depth s p)) <= EvalSpec.max_terminal_ply)%Z ->
-  SearchAll3.analyze_all_cancel Generated.Consts.gen_basis cfg k s p = (sk, (pvs, v, d, c)) ->
+  Search.analyze_all_cancel Generated.Consts.gen_basis cfg k s p = (sk, (pvs, v, d, c)) ->
   SearchLegal2.SJ sk /\ Forall (SearchLegal3.head_legal p) pvs /\ Forall (fun l => l <> []) pvs.
 Proof. exact SearchAllLegal2.analyze_all_heads_legal_game64. Qed.
 Print Assumptions C04_analyze_all_heads_legal_game64.
@@ -597,7 +597,7 @@ Theorem C04_analyze_all_heads_legal_notable : forall cfg, SearchNeg5.builtin_eva
   forall k s p sk pvs v d c,
   SearchExact.SI s -> SearchNeg2.base_ok p -> Search.is_over p = false -> (Preserve1.total p <= 64)%N ->
   (move p + Z.max 1 (Search.c_depth cfg) <= EvalSpec.max_terminal_ply)%Z ->
-  SearchAll3.analyze_all_cancel Generated.Consts.gen_basis cfg k s p = (sk, (pvs, v, d, c)) ->
+  Search.analyze_all_cancel Generated.Consts.gen_basis cfg k s p = (sk, (pvs, v, d, c)) ->
   Forall (SearchLegal3.head_legal p) pvs /\ Forall (fun l => l <> []) pvs.
 Proof. exact SearchAllLegal2.analyze_all_heads_legal_notable_64. Qed.
 Print Assumptions C04_analyze_all_heads_legal_notable.
@@ -666,11 +666,11 @@ Theorem C04_example_pv_replays :
 Proof. exact SearchPv2.ex_pv_replays. Qed.
 Print Assumptions C04_example_pv_replays.
 
-(* ... and so does every line of AnalyzeAll (same setting; for a cancelled call as long as the flag was not seen set at the end) *)
+(* ... and so does every line of the repaired AnalyzeAll (same setting, any cancellation point) *)
 Theorem C04_analyze_all_lines_replay_precise : forall cfg, SearchExact.precise cfg -> SearchNeg5.builtin_eval cfg ->
   forall k s p sk pvs v d c,
   SearchExact.SI s -> SearchNeg2.base_ok p -> (Preserve1.total p <= 64)%N -> (move p + 16 <= EvalSpec.max_terminal_ply)%Z ->
-  SearchAll3.analyze_all_cancel Generated.Consts.gen_basis cfg k s p = (sk, (pvs, v, d, c)) -> Search.cancelled k sk = false ->
+  Search.analyze_all_cancel Generated.Consts.gen_basis cfg k s p = (sk, (pvs, v, d, c)) ->
   Forall (fun l => exists q, Reach1.replay p l = Ok q) pvs.
 Proof. exact SearchPv4.analyze_all_lines_replay_64. Qed.
 Print Assumptions C04_analyze_all_lines_replay_precise.
